@@ -23,7 +23,7 @@
     with a tolerance.  No float is computed or compared here.
 -/
 import EasyMl.Model.Decomp
-import EasyMl.Model.Tape
+import EasyMl.Model.DualElem
 import Driver.Parse
 
 namespace Driver.C08
@@ -59,28 +59,8 @@ def parseFp (s : String) : Option Fp := s.toNat?.map Fp.ofNat
 /-! ### forward-mode dual numbers over `Fp` as an element type (`Trace<Fp>`)
 
   The decomposition models are polymorphic; instantiated at `Dual Fp` (the C05 model of
-  `Trace<T>`: trace_operations.rs) they predict value *and* derivative of every factor entry.
+  `Trace<T>`: trace_operations.rs; the instances are in `Model/DualElem.lean`) they predict value *and* derivative of every factor entry.
   `==`, `<=`, `<` of a `Trace` look at the number only. -/
-
-instance : Add (Dual Fp) := ⟨Dual.add⟩
-instance : Sub (Dual Fp) := ⟨Dual.sub⟩
-instance : Mul (Dual Fp) := ⟨Dual.mul⟩
-instance : Div (Dual Fp) := ⟨Dual.div⟩
-instance : Neg (Dual Fp) := ⟨Dual.neg⟩
-instance : Zero (Dual Fp) := ⟨Dual.constant 0⟩
-instance : One (Dual Fp) := ⟨Dual.constant 1⟩
-instance : RealFns (Dual Fp) where
-  sqrt := Dual.sqrt
-  exp := Dual.exp
-  ln := Dual.ln
-  sin := Dual.sin
-  cos := Dual.cos
-  pow := Dual.pow
-  pi := Dual.constant RealFns.pi
-instance : NumOrd (Dual Fp) where
-  lt a b := NumOrd.lt a.number b.number
-  le a b := NumOrd.le a.number b.number
-  eq a b := NumOrd.eq a.number b.number
 
 def showDual (a : Dual Fp) : String := s!"{a.number}~{a.derivative}"
 
